@@ -1,7 +1,7 @@
 (* C08 - MapSpec parsing, printing, shapes and index maps are mutually consistent.
    Only statements here; every proof is `exact <lemma>` into Proofs/. *)
 From Verif Require Import Base.Prelude Base.Index Model.MapSpec Model.MapSpecSpec
-  Proofs.IndexFacts Proofs.MapSpecFacts.
+  Proofs.IndexFacts Proofs.MapSpecFacts Proofs.MapSpecParse Proofs.MapSpecShape.
 
 (* over linear indices 0..N-1, output_key visits every output position exactly once in row-major order
    (all_indices is itertools.product of the ranges; it has no duplicates and length prod sh) *)
@@ -66,3 +66,91 @@ Proof.
   - repeat constructor; cbn; intuition discriminate.
   - repeat constructor; cbn; intuition discriminate.
 Qed.
+
+(* MapSpec.from_string (str m) = m : the printed notation of every well-formed spec (all arrays of rank >= 1,
+   the notation has no rank-0 form) parses back to exactly that spec, including the "..." form for no inputs *)
+Theorem C08_parse_print : forall m,
+  wf_decl m = true -> printable m = true -> parse (print m) = Ok m.
+Proof. exact parse_print. Qed.
+Print Assumptions C08_parse_print.
+
+(* hence the notation is unambiguous: different well-formed specs print differently *)
+Theorem C08_print_injective : forall m1 m2,
+  wf_decl m1 = true -> printable m1 = true -> wf_decl m2 = true -> printable m2 = true ->
+  print m1 = print m2 -> m1 = m2.
+Proof. exact print_injective. Qed.
+Print Assumptions C08_print_injective.
+
+Example C08_example_parse_print :
+  let A n ax := {| aname := n; axes := ax |} in
+  let m := {| ins := [A (s "a") [Some (s "i"); None]; A (s "b.c") [Some (s "j")]];
+              outs := [A (s "q") [Some (s "i"); Some (s "j")]] |} in
+  let m0 := {| ins := []; outs := [A (s "q") [Some (s "i")]] |} in
+  wf_decl m = true /\ printable m = true /\ print m = s "a[i, :], b.c[j] -> q[i, j]"
+  /\ wf_decl m0 = true /\ printable m0 = true /\ print m0 = s "... -> q[i]".
+Proof. exact parse_print_instance. Qed.
+
+(* shape: an acceptable request (exactly the inputs with their declared ranks, zipped dimensions agree,
+   internal shape of the first output long enough) yields the shape and mask the notation implies;
+   every other request raises *)
+Theorem C08_shape_correct : forall m ish int,
+  wf_decl m = true -> forallb nodup_axes (ins m) = true ->
+  NoDup (map aname (ins m)) -> NoDup (map fst ish) -> NoDup (map fst int) ->
+  (shape_request_ok m ish int = true ->
+     exists sh mask, shape m ish int = Ok (sh, mask) /\ shape_result_ok m ish int sh mask = true)
+  /\ (shape_request_ok m ish int = false -> exists e, shape m ish int = Err e).
+Proof. exact shape_correct. Qed.
+Print Assumptions C08_shape_correct.
+
+Example C08_example_shape :
+  let A n ax := {| aname := n; axes := ax |} in
+  let m := {| ins := [A (s "a") [Some (s "i"); None]; A (s "b") [Some (s "j")]];
+              outs := [A (s "q") [Some (s "i"); Some (s "j"); Some (s "k")]] |} in
+  let ish := [(s "a", [3; 7]); (s "b", [4])] in
+  let int := [(s "q", [5])] in
+  wf_decl m = true /\ forallb nodup_axes (ins m) = true /\ shape_request_ok m ish int = true
+  /\ shape m ish int = Ok ([3; 4; 5], [true; true; false])
+  /\ shape_request_ok m ish [] = false /\ shape m ish [] = Err ValueError.
+Proof. exact shape_correct_instance. Qed.
+
+(* whitespace insensitivity of the notation: with any ASCII whitespace (no newline inside brackets) around
+   the indices, any mixture of whitespace and commas between arrays / around "->", whitespace around "...",
+   the string parses to the spec obtained by erasing the layout; hence two layouts of one spec parse alike.
+   (`sside` = explicit layout of one side, `pr_spaced` its rendering, `er_side` its erasure, `ok_side` the
+   admissibility of the padding; all defined in Proofs/MapSpecParse.v) *)
+Theorem C08_parse_spaced : forall L R,
+  ok_side L = true -> ok_side R = true ->
+  wf_decl {| ins := er_side L; outs := er_side R |} = true ->
+  printable {| ins := er_side L; outs := er_side R |} = true ->
+  parse (pr_spaced L R) = Ok {| ins := er_side L; outs := er_side R |}.
+Proof. exact parse_spaced. Qed.
+Print Assumptions C08_parse_spaced.
+
+Theorem C08_parse_respaced : forall L R L' R',
+  ok_side L = true -> ok_side R = true -> ok_side L' = true -> ok_side R' = true ->
+  er_side L' = er_side L -> er_side R' = er_side R ->
+  wf_decl {| ins := er_side L; outs := er_side R |} = true ->
+  printable {| ins := er_side L; outs := er_side R |} = true ->
+  parse (pr_spaced L' R') = parse (pr_spaced L R).
+Proof. exact parse_respaced. Qed.
+Print Assumptions C08_parse_respaced.
+
+(* instance: the canonical rendering "a[i, :], b.c[j] -> q[i, j]" and "  a[ i  ,: ] ,b.c[  j]->q[i,j ]  "
+   are two admissible layouts of the same well-formed spec *)
+Example C08_example_spaced :
+  let ax l v r := {| ax_l := s l; ax_v := v; ax_r := s r |} in
+  let L := Arrays [ {| ar_sep := []; ar_name := s "a"; ar_axes := [ax ""%string (Some (s "i")) ""%string; ax " "%string None ""%string] |};
+                    {| ar_sep := s ", "; ar_name := s "b.c"; ar_axes := [ax ""%string (Some (s "j")) ""%string] |} ] (s " ") in
+  let R := Arrays [ {| ar_sep := s " "; ar_name := s "q"; ar_axes := [ax ""%string (Some (s "i")) ""%string; ax " "%string (Some (s "j")) ""%string] |} ] [] in
+  let L' := Arrays [ {| ar_sep := s "  "; ar_name := s "a"; ar_axes := [ax " "%string (Some (s "i")) "  "%string; ax ""%string None " "%string] |};
+                     {| ar_sep := s " ,"; ar_name := s "b.c"; ar_axes := [ax "  "%string (Some (s "j")) ""%string] |} ] [] in
+  let R' := Arrays [ {| ar_sep := []; ar_name := s "q"; ar_axes := [ax ""%string (Some (s "i")) ""%string; ax ""%string (Some (s "j")) " "%string] |} ] (s "  ") in
+  let m := {| ins := er_side L; outs := er_side R |} in
+  ok_side L = true /\ ok_side R = true /\ ok_side L' = true /\ ok_side R' = true
+  /\ wf_decl m = true /\ printable m = true
+  /\ pr_spaced L R = print m
+  /\ pr_spaced L R = s "a[i, :], b.c[j] -> q[i, j]"
+  /\ pr_spaced L' R' = s "  a[ i  ,: ] ,b.c[  j]->q[i,j ]  "
+  /\ er_side L' = er_side L /\ er_side R' = er_side R
+  /\ pr_spaced (Dots (s " ") []) R' = s " ...->q[i,j ]  ".
+Proof. exact parse_spaced_instance. Qed.
